@@ -69,7 +69,11 @@ func (c taintCase) graph() (*gen.GraphBP, map[int]string) {
 	for i := 0; i < c.People; i++ {
 		p := &gen.PersonBP{ID: ptr("I", i+1)}
 		p.Names = append(p.Names, gen.Str(b.tok("given")+" /"+b.tok("surname")+"/ "+b.tok("suffix")))
-		if ex(0) {
+		nameless := ex(7) && i%4 == 1 // somebody without any NAME: pages fall back to other values (the pointer)
+		if nameless {
+			p.Names = nil
+		}
+		if ex(0) && !nameless {
 			p.Names = append(p.Names, gen.Str(b.tok("given2")+" /"+b.tok("surname2")+"/"))
 		}
 		p.Sex = []string{b.tok("sex")}
@@ -388,7 +392,7 @@ func TestCheckTaint(t *testing.T) {
 		c := taintCase{
 			People: rapid.IntRange(1, 4).Draw(rt, "people"), Families: rapid.IntRange(0, 2).Draw(rt, "families"), Sources: rapid.IntRange(0, 2).Draw(rt, "sources"),
 			Vis:  rapid.SampledFrom([]string{"show", "show", "hide", "placeholder"}).Draw(rt, "vis"),
-			Mask: rapid.SampledFrom([]int{63, 63, 63, 1, 2, 4, 8, 16, 32, 62, 31}).Draw(rt, "mask"), Extras: rapid.IntRange(0, 127).Draw(rt, "extras"),
+			Mask: rapid.SampledFrom([]int{63, 63, 63, 1, 2, 4, 8, 16, 32, 62, 31}).Draw(rt, "mask"), Extras: rapid.IntRange(0, 255).Draw(rt, "extras"),
 			PointerTaint: rapid.IntRange(0, 3).Draw(rt, "pointerTaint") == 0,
 		}
 		for _, benign := range []bool{true, false} {
